@@ -134,6 +134,10 @@ Inductive items_of (l : language) : nat -> list token -> list fdesc -> Prop :=
     items_of l (off + 1 + length words + length cond + 1) body ds1 ->
     items_of l (off + 1 + length words + length cond + 1 + length body + 1) r ds2 ->
     items_of l off (kw :: words ++ cond ++ o :: body ++ c :: r) (ds1 ++ ds2)
+(* a label made of a keyword and a colon: `public :`, `private :` in a C++ class, `default :` in a switch *)
+| io_label off kw colon r ds :
+    is_keyword kw = true -> is_operator colon s_colon = true ->
+    items_of l (off + 2) r ds -> items_of l off (kw :: colon :: r) ds
 (* a bare block `{ item* }` — an instance initialiser, a scope of its own, a block right after a function body *)
 | io_block off o body c r ds1 ds2 :
     is_lbrace o = true -> is_rbrace c = true ->
@@ -141,9 +145,11 @@ Inductive items_of (l : language) : nat -> list token -> list fdesc -> Prop :=
     items_of l (off + 1 + length body + 1) r ds2 ->
     items_of l off (o :: body ++ c :: r) (ds1 ++ ds2)
 (* a statement with a brace initialiser: `int a [ ] = { 1 , 2 , 3 } ;`, `const o = { a : 1 } ;`, `enum E { A , B } ;` —
-   no parenthesis before or inside the braces (so no header shape can begin there), an ordinary statement tail after them *)
+   no parenthesis before the braces, balanced parenthesis groups but no further braces inside them
+   (`const o = { a : 1 , b : call ( 2 ) } ;` — a header shape would need a "{" after its groups, and there is none before
+   the ";"), an ordinary statement tail after them *)
 | io_init off pre o flat c post semi r ds :
-    forallb plain pre = true -> is_lbrace o = true -> forallb plain flat = true -> is_rbrace c = true ->
+    forallb plain pre = true -> is_lbrace o = true -> inner flat -> is_rbrace c = true ->
     inner post -> is_symbol semi semicolon = true ->
     items_of l (off + length pre + 1 + length flat + 1 + length post + 1) r ds ->
     items_of l off (pre ++ o :: flat ++ c :: post ++ semi :: r) ds
